@@ -1,5 +1,6 @@
 CONSTANTS EP = {"e1", "e2", "e3"}  Prefixes = {}  Types = {}
 CONSTANT KnownDeviations = ${KnownDeviations}
+CONSTANT Focus = FALSE
 CONSTANT AllowedChoices = {{}}
 SPECIFICATION TraceSpec
 CONSTRAINT HW
